@@ -270,6 +270,161 @@ theorem bytes_same (sk : WSkel) (hwf : wfBytes sk = true) (mf : Option MinFn) (v
   rw [bytesVia_of_wf _ hwf.1, bytesVia_of_wf _ hwf.2]
   exact ⟨rfl, rfl⟩
 
+/-! ### ownership: results retained across the calls of a history -/
+
+/-- the slices a caller retained from a finished call read the right bytes in heap `h` -/
+def DoneGood (h : Heap) (d : ODone) : Prop :=
+  d.inRef.cell < h.length ∧ d.outRef.cell < h.length ∧
+  deref h d.inRef = d.call.input ∧ deref h d.outRef = expected d.call ∧
+  d.err = (plain d.call.mf d.call.input).2
+
+/-- every finished call of the history so far is good in the current heap -/
+def OGood (s : OState) : Prop := ∀ d ∈ s.done, DoneGood s.heap d
+
+/-- appending cells does not change what an existing slice reads -/
+theorem deref_append (h t : Heap) (r : Ref) (hr : r.cell < h.length) : deref (h ++ t) r = deref h r := by
+  simp [deref, List.getD_eq_getElem?_getD, List.getElem?_append_left hr]
+
+theorem doneGood_append (h t : Heap) (d : ODone) (g : DoneGood h d) : DoneGood (h ++ t) d := by
+  obtain ⟨h1, h2, h3, h4, h5⟩ := g
+  refine ⟨by simp; omega, by simp; omega, ?_, ?_, h5⟩
+  · rw [deref_append h t _ h1]; exact h3
+  · rw [deref_append h t _ h2]; exact h4
+
+/-- a call of a helper that keeps to the ownership discipline only APPENDS cells to the heap, and what it
+    hands back is good in the new heap -/
+theorem ocall_spec (cfgB cfgS : OwnCfg) (hB : ownOK cfgB = true) (hS : ownOK cfgS = true)
+    (scr : Bytes → Bytes) (s : OState) (c : OCall) :
+    ∃ ext d, (ocall cfgB cfgS scr s c).heap = s.heap ++ ext ∧
+      (ocall cfgB cfgS scr s c).done = s.done ++ [d] ∧ d.call = c ∧ DoneGood (s.heap ++ ext) d := by
+  have hcfg : ownOK (if c.str then cfgS else cfgB) = true := by split <;> assumption
+  unfold ocall
+  generalize (if c.str then cfgS else cfgB) = cfg at hcfg
+  obtain ⟨fresh, ret, copied⟩ := cfg
+  simp only [ownOK, Bool.and_eq_true, Bool.or_eq_true, beq_iff_eq] at hcfg
+  obtain ⟨⟨hf, hcp⟩, hr⟩ := hcfg
+  subst hf hcp
+  have hexp : ∀ out e, plain c.mf c.input = (out, e) →
+      expected c = (match e with | none => out | some _ => c.input) := by
+    intro out e hp; unfold expected; rw [hp]; cases e <;> rfl
+  cases hp : plain c.mf c.input with
+  | mk out e =>
+    have hx := hexp out e hp
+    cases e with
+    | some e =>
+      refine ⟨[c.input, scr c.input, out], ⟨c, ⟨s.heap.length, c.input.length⟩, ⟨s.heap.length, c.input.length⟩, some e⟩, ?_, ?_, rfl, ?_⟩
+      · simp
+      · simp
+      · refine ⟨by simp, by simp, ?_, ?_, by simp [hp]⟩
+        · simp [deref, List.getD_eq_getElem?_getD]
+        · simp [deref, List.getD_eq_getElem?_getD, hx]
+    | none =>
+      rcases hr with hr | hr
+      · subst hr
+        refine ⟨[c.input, scr c.input, out], ⟨c, ⟨s.heap.length, c.input.length⟩, ⟨s.heap.length + 2, out.length⟩, none⟩, ?_, ?_, rfl, ?_⟩
+        · simp
+        · simp
+        · refine ⟨by simp, by simp, ?_, ?_, by simp [hp]⟩
+          · simp [deref, List.getD_eq_getElem?_getD]
+          · simp [deref, List.getD_eq_getElem?_getD, hx]
+      · subst hr
+        refine ⟨[c.input, scr c.input, out, out], ⟨c, ⟨s.heap.length, c.input.length⟩, ⟨s.heap.length + 3, out.length⟩, none⟩, ?_, ?_, rfl, ?_⟩
+        · simp [List.getD_eq_getElem?_getD]
+        · simp
+        · refine ⟨by simp, by simp, ?_, ?_, by simp [hp]⟩
+          · simp [deref, List.getD_eq_getElem?_getD]
+          · simp [deref, List.getD_eq_getElem?_getD, hx]
+
+theorem ocall_good (cfgB cfgS : OwnCfg) (hB : ownOK cfgB = true) (hS : ownOK cfgS = true)
+    (scr : Bytes → Bytes) (s : OState) (c : OCall) (g : OGood s) : OGood (ocall cfgB cfgS scr s c) := by
+  obtain ⟨ext, d, hh, hd, _, hg⟩ := ocall_spec cfgB cfgS hB hS scr s c
+  intro d' hd'
+  rw [hd] at hd'
+  rw [hh]
+  rcases List.mem_append.mp hd' with h | h
+  · exact doneGood_append _ _ _ (g d' h)
+  · simp only [List.mem_singleton] at h; subst h; exact hg
+
+theorem orun_good (cfgB cfgS : OwnCfg) (hB : ownOK cfgB = true) (hS : ownOK cfgS = true)
+    (scr : Bytes → Bytes) : ∀ (cs : List OCall) (s : OState), OGood s → OGood (orun cfgB cfgS scr s cs) := by
+  intro cs
+  induction cs with
+  | nil => intro s g; exact g
+  | cons c cs ih => intro s g; exact ih _ (ocall_good cfgB cfgS hB hS scr s c g)
+
+/-- a history only appends to the list of finished calls, one entry per call, in order -/
+theorem orun_done (cfgB cfgS : OwnCfg) (hB : ownOK cfgB = true) (hS : ownOK cfgS = true)
+    (scr : Bytes → Bytes) : ∀ (cs : List OCall) (s : OState),
+      ∃ ds, (orun cfgB cfgS scr s cs).done = s.done ++ ds ∧ ds.map (·.call) = cs := by
+  intro cs
+  induction cs with
+  | nil => intro s; exact ⟨[], by simp [orun], rfl⟩
+  | cons c cs ih =>
+    intro s
+    obtain ⟨_, d, _, hd, hc, _⟩ := ocall_spec cfgB cfgS hB hS scr s c
+    obtain ⟨ds, h1, h2⟩ := ih (ocall cfgB cfgS scr s c)
+    refine ⟨d :: ds, ?_, by simp [hc, h2]⟩
+    simp only [orun]
+    rw [h1, hd]; simp
+
+/-- **history_results_stable** (ownership contract of `Bytes`/`String`): for helpers whose output buffer is a
+    fresh local and which read a copy of the caller's slice (`ownOK`), for EVERY history `hs` of calls (any
+    inputs, any registered minifier functions, whatever the minifier leaves in its working buffer) and EVERY
+    continuation `later` of that history: what call i of `hs` returned — slice or string, retained by the
+    caller and read only after `later` has run too — still equals the plain call's output on input i (the
+    input itself when the plain call fails), the caller's own input slice still holds input i, and the error
+    is the plain call's error. -/
+theorem history_results_stable (cfgB cfgS : OwnCfg) (hB : ownOK cfgB = true) (hS : ownOK cfgS = true)
+    (scr : Bytes → Bytes) (hs later : List OCall) :
+    let s := orun cfgB cfgS scr {} hs
+    let s' := orun cfgB cfgS scr s later
+    s.done.map (·.call) = hs ∧
+    ∀ d ∈ s.done, deref s'.heap d.outRef = expected d.call ∧ deref s'.heap d.inRef = d.call.input ∧
+      d.err = (plain d.call.mf d.call.input).2 := by
+  intro s s'
+  obtain ⟨ds, h1, h2⟩ := orun_done cfgB cfgS hB hS scr hs {}
+  refine ⟨by show (orun cfgB cfgS scr {} hs).done.map _ = hs; rw [h1]; simpa using h2, ?_⟩
+  intro d hd
+  have g0 : OGood ({} : OState) := by intro d hd; cases hd
+  have gs : OGood s := orun_good cfgB cfgS hB hS scr hs {} g0
+  have gs' : OGood s' := orun_good cfgB cfgS hB hS scr later s gs
+  obtain ⟨ds', h1', _⟩ := orun_done cfgB cfgS hB hS scr later s
+  have hd' : d ∈ s'.done := by
+    show d ∈ (orun cfgB cfgS scr s later).done
+    rw [h1']; exact List.mem_append_left _ hd
+  obtain ⟨_, _, h3, h4, h5⟩ := gs' d hd'
+  exact ⟨h4, h3, h5⟩
+
+/-- **pooled_alias_counterexample**: the statement is FALSE for a helper that cuts the returned slice from a
+    pooled buffer — a two-call history suffices: after the second call the first result reads `[9, 2, 3]`. -/
+theorem pooled_alias_counterexample :
+    let cfg : OwnCfg := { fresh := false, ret := .aliasBuf, copied := true }
+    let f : MinFn := fun b => (b, none)
+    let s := orun cfg cfg id {} [⟨false, some f, [1, 2, 3]⟩, ⟨false, some f, [9]⟩]
+    ∃ d ∈ s.done, deref s.heap d.outRef ≠ expected d.call := by decide
+
+/-- and FALSE on the input side for a helper that lets the minifier work on the caller's slice itself -/
+theorem uncopied_input_counterexample :
+    let cfg : OwnCfg := { fresh := true, ret := .aliasBuf, copied := false }
+    let f : MinFn := fun b => (b, none)
+    let s := orun cfg cfg List.reverse {} [⟨false, some f, [1, 2]⟩]
+    ∃ d ∈ s.done, deref s.heap d.inRef ≠ d.call.input := by decide
+
+/-- a pooled buffer whose content is COPIED on return (what `String` does) survives the same history -/
+example :
+    let cfg : OwnCfg := { fresh := false, ret := .copy, copied := true }
+    let f : MinFn := fun b => (b, none)
+    let s := orun cfg cfg id {} [⟨true, some f, [1, 2, 3]⟩, ⟨true, some f, [9]⟩]
+    ∀ d ∈ s.done, deref s.heap d.outRef = expected d.call := by decide
+
+/-- non-vacuity: a three-call history (success, minifier error, no minifier) under the discipline -/
+example :
+    let cfg : OwnCfg := { fresh := true, ret := .aliasBuf, copied := true }
+    let f : MinFn := fun b => (b.reverse, if b.length > 2 then some (.minifier 1) else none)
+    let s := orun cfg cfg (fun b => b.map (· + 1)) {} [⟨false, some f, [1, 2]⟩, ⟨true, some f, [3, 4, 5]⟩, ⟨false, none, [6]⟩]
+    s.done.map (fun d => (deref s.heap d.outRef, d.err)) =
+      [([2, 1], none), ([3, 4, 5], some (.minifier 1)), ([6], some .notExist)] := by decide
+
 /-! ### the `Reader` system -/
 
 def RReach (sk : WSkel) (ws : List Bytes) (err : Option Err) (s : RState) : Prop :=
@@ -334,6 +489,31 @@ theorem gen_wfWriter : wfWriter Verif.Gen.Wrappers.skel = true := by decide
 theorem gen_wfRespWriter : wfRespWriter Verif.Gen.Wrappers.skel = true := by decide
 theorem gen_wfReader : wfReader Verif.Gen.Wrappers.skel = true := by decide
 theorem gen_wfBytes : wfBytes Verif.Gen.Wrappers.skel = true := by decide
+
+/-- **ownership_generated**: the ownership facts regenerated from `/repo/minify.go` say that `Bytes` and
+    `String` cut what they return from a FRESH LOCAL buffer (not a package-level variable, pool, field or
+    escaping local), hand back the input on the error path, and give the minifier a copy of the caller's
+    slice (re-checked by the kernel on every run) -/
+theorem ownership_generated :
+    wfOwnership Verif.Gen.Wrappers.skel Verif.Gen.Wrappers.retFacts = true := by decide
+
+/-- **C12_ownership**: `history_results_stable` instantiated for the code as it is now -/
+theorem C12_ownership (scr : Bytes → Bytes) (hs later : List OCall) :
+    ∃ cb cs, ownCfgs Verif.Gen.Wrappers.skel Verif.Gen.Wrappers.retFacts = some (cb, cs) ∧
+      (let s := orun cb cs scr {} hs
+       let s' := orun cb cs scr s later
+       s.done.map (·.call) = hs ∧
+       ∀ d ∈ s.done, deref s'.heap d.outRef = expected d.call ∧ deref s'.heap d.inRef = d.call.input ∧
+         d.err = (plain d.call.mf d.call.input).2) := by
+  have h := ownership_generated
+  unfold wfOwnership at h
+  cases hc : ownCfgs Verif.Gen.Wrappers.skel Verif.Gen.Wrappers.retFacts with
+  | none => rw [hc] at h; cases h
+  | some p =>
+    obtain ⟨cb, cs⟩ := p
+    rw [hc] at h
+    simp only [Bool.and_eq_true] at h
+    exact ⟨cb, cs, rfl, history_results_stable cb cs h.1 h.2 scr hs later⟩
 
 /-- **C12_main**, instantiated for the code as it is now: for every registered minifier function
     (or none), every chunking and every schedule —
